@@ -137,21 +137,25 @@ def completeInnerText (s : State) : Except Site State :=
     | f :: rest =>
       .ok { s with path := f.addChild (.text t) :: rest, innerText := none, size := 0, used := 0 }
 
+/-- the element `_start_element` builds: `xmpp_stanza_set_name(child, name)`, `_set_attributes`,
+    then `xmpp_stanza_set_ns` if the expat name carried a namespace -/
+def newChild (nsname : Bytes) (attrs : List Attr) : Frame :=
+  let a := setAttributes [] attrs
+  { name := xmlName nsname,
+    attrs := match xmlNamespace nsname with
+      | some n => setAttr a nsAttr n
+      | none => a,
+    children := [] }
+
 /-- `_start_element` -/
 def startElement (s : State) (nsname : Bytes) (attrs : List Attr) : Except Site (State × List Ev) :=
-  let ns := xmlNamespace nsname
-  let name := xmlName nsname
   if s.depth = 0 then
-    .ok ({ s with depth := s.depth + 1 }, [.open_ name attrs])
+    .ok ({ s with depth := s.depth + 1 }, [.open_ (xmlName nsname) attrs])
   else if s.path.isEmpty && s.depth != 1 then
     -- "oops, where did our stanza go?": only logged
     .ok ({ s with depth := s.depth + 1 }, [])
   else
-    let a := setAttributes [] attrs
-    let a := match ns with
-      | some n => setAttr a nsAttr n
-      | none => a
-    let child : Frame := { name := name, attrs := a, children := [] }
+    let child := newChild nsname attrs
     match s.path with
     | [] => .ok ({ s with path := [child], depth := s.depth + 1 }, [])
     | _ :: _ => do
@@ -248,5 +252,20 @@ def exec (s : State) : List In → Except Site State
 
 /-- a parser fresh from `parser_new`, driven by the trace -/
 def assemble (ins : List In) : Out := run init ins
+
+/-! ### the tree before commit 86b91cf (defect D5) — used only by the witnesses in Props/C10 -/
+
+def stepD5 (s : State) : In → Except Site (State × List Ev)
+  | .reset => .ok (resetD5 s, [])
+  | i => step s i
+
+def runD5 (s : State) : List In → Out
+  | [] => ⟨[], none⟩
+  | i :: rest =>
+    match stepD5 s i with
+    | .error site => ⟨[], some site⟩
+    | .ok (s', e) =>
+      let o := runD5 s' rest
+      ⟨e ++ o.evs, o.crash⟩
 
 end Strophe.Assembly
